@@ -306,6 +306,29 @@ def _not(c):
     return ("op", "Not", [c])
 
 
+def _distribute_field(b, i):
+    """(match x { A => (p, q), B => (r, s) }).0  ==  match x { A => p, B => r }     (likewise for if / else; diverging arms stay)"""
+    def comp(t):
+        if t[0] == "tup" and i < len(t[1]):
+            return t[1][i]
+        if t[0] == "opaque" and t[1] == "diverge" or t[0] in ("ret", "break") or t == ("continue",):
+            return t
+        if t[0] in ("match", "if"):
+            return _distribute_field(t, i)
+        return None
+    if b[0] == "match":
+        arms = [(p, g, comp(bt)) for p, g, bt in b[2]]
+        if any(x is None for _p, _g, x in arms) or not any(bt[0] == "tup" for _p, _g, bt in b[2]):
+            return None
+        return ("match", b[1], arms)
+    if b[0] == "if":
+        t, e = comp(b[2]), comp(b[3])
+        if t is None or e is None:
+            return None
+        return _mk_if(b[1], t, e)
+    return None
+
+
 def _mk_if(c, t, e):
     """if c {t} else {e} with the boolean identities applied"""
     if c[0] == "op" and c[1] == "Not" and len(c[2]) == 1:
@@ -648,7 +671,7 @@ class Norm:
         out = []
         for g in guards:
             if g[0] == "if":
-                out.append(("guard", "if", bool(g[2]), self._t(g[1])))
+                out.append(("guard", "if", bool(g[2]), self._cond_value(self._t(g[1]))))
             elif g[0] == "arm":
                 out.append(("guard", "arm", self._t(g[1]), g[2]))
             elif g[0] == "for":
@@ -657,11 +680,18 @@ class Norm:
                 out.append(("guard", "closure"))
         return out
 
+    def _cond_value(self, t):
+        """a condition under which something happens: where evaluating the condition leaves the function, the thing does not
+        happen, so diverging arms of a boolean match count as false"""
+        if t[0] == "match" and any(_diverges(b) for _p, _g, b in t[2]) and all(g is None for _p, g, _b in t[2]):
+            return self._canon_match(t[1], [(p, g, ("lit", False) if _diverges(b) else b) for p, g, b in t[2]])
+        return t
+
     def guards_term(self, guards):
         out = []
         for g in guards:
             if g[0] == "if":
-                out.append(("" if g[2] else "!") + show(self._t(g[1])))
+                out.append(("" if g[2] else "!") + show(self._cond_value(self._t(g[1]))))
             elif g[0] == "arm":
                 out.append(show(self._t(g[1])) + "~" + g[2])
             elif g[0] == "for":
@@ -1326,7 +1356,8 @@ class Norm:
                 if t[0] == "tup" and isinstance(i, int) and i < len(t[1]):
                     t = t[1][i]
                 else:
-                    t = ("field", t, str(i))
+                    d = _distribute_field(t, i) if isinstance(i, int) else None
+                    t = d if d is not None else ("field", t, str(i))
             elif step[0] == "variant":
                 v, acc = step[1], step[2]
                 # destructuring a struct literal / ctor call of the same variant selects the component
@@ -1506,6 +1537,10 @@ class Norm:
                 return b[3][name]
             if b[0] == "tup" and name.isdigit() and int(name) < len(b[1]):
                 return b[1][int(name)]
+            if name.isdigit():
+                d = _distribute_field(b, int(name))
+                if d is not None:
+                    return d
             return ("field", b, name)
         if k == "Call":
             c = e.get("callee")
